@@ -271,6 +271,12 @@ pub fn outcome_json(o: Outcome) -> Value {
 }
 
 pub fn html_bytes(run: &Value) -> Vec<u8> {
+    // {"rep": {"unit": u, "n": n, "tail": t}} = n repetitions of u followed by t (deep nesting, written compactly)
+    if let Some(rep) = run.get("rep") {
+        let mut v = rep["unit"].as_str().unwrap_or("").as_bytes().repeat(rep["n"].as_u64().unwrap_or(0) as usize);
+        v.extend_from_slice(rep["tail"].as_str().unwrap_or("").as_bytes());
+        return v;
+    }
     if let Some(h) = run.get("hx").and_then(|v| v.as_str()) {
         (0..h.len() / 2).map(|i| u8::from_str_radix(&h[2 * i..2 * i + 2], 16).unwrap_or(0)).collect()
     } else {
